@@ -51,7 +51,7 @@ static void build_ops(void)
     for (int k = K_SPLICE; k <= K_SPLICE_PTR; k++)
         for (int i = -(L + 2); i <= L + 2; i++) for (int c = -(L + 2); c <= L + 2; c++) for (int t = 0; t < 3; t++) add(k, i, c, t, INS[t]);
     add(K_TRIM, 0, 0, 0, NUL_); add(K_REV, 0, 0, 0, NUL_); add(K_CLEAR, 'x', 0, 0, NUL_);
-    for (int i = 0; i < 4; i++) add(K_SPRINTF, i, 0, 0, NUL_);
+    for (int i = 0; i < 5; i++) add(K_SPRINTF, i, 0, 0, NUL_);
     add(K_DONE, 0, 0, 0, NUL_); add(K_DONE_INIT, 0, 0, 0, NUL_);
     { bs_t b = BS("\xff"); add(K_DONE_INIT_PTR, 0, 0, 0, b); }
     add(K_APP_SELF, 0, 0, 0, NUL_); add(K_PRE_SELF, 0, 0, 0, NUL_); add(K_SPLICE_SELF, 0, 0, 0, NUL_); add(K_SPLICE_SELF, 1, 1, 0, NUL_);
@@ -75,7 +75,7 @@ static void op_name(int i, char *b, size_t n)
     case K_TRIM: snprintf(b, n, "trim()"); break;
     case K_REV: snprintf(b, n, "reverse()"); break;
     case K_CLEAR: snprintf(b, n, "clear('x')"); break;
-    case K_SPRINTF: { static const char *d[4] = { "sprintf(\"\")", "sprintf(\"%s\",\"a7\")", "sprintf(\"%d\",-5)", "sprintf(NULL)" }; snprintf(b, n, "%s", d[o->a]); break; }
+    case K_SPRINTF: { static const char *d[5] = { "sprintf(\"\")", "sprintf(\"%s\",\"a7\")", "sprintf(\"%d\",-5)", "sprintf(NULL)", "sprintf(\"%s\",\"\")" }; snprintf(b, n, "%s", d[o->a]); break; }
     case K_DONE: snprintf(b, n, "done()"); break;
     case K_DONE_INIT: snprintf(b, n, "done()+init()"); break;
     case K_DONE_INIT_PTR: snprintf(b, n, "done()+init_from_ptr(\"\\xff\",1)"); break;
@@ -215,6 +215,7 @@ static void apply(void *vs, int op)
         case 1: r = F(sprintf)(self, (spif_charptr_t) "%s", "a7"); model_set(s, "a7", 2); break;
         case 2: r = F(sprintf)(self, (spif_charptr_t) "%d", -5); model_set(s, "-5", 2); break;
         case 3: r = F(sprintf)(self, (spif_charptr_t) NULL); model_set(s, "", 0); expect_r = 0; break;
+        case 4: r = F(sprintf)(self, (spif_charptr_t) "%s", ""); model_set(s, "", 0); expect_r = 0; break;      /* a format that expands to nothing: refused, the object is left empty */
         }
         break;
     case K_APP_SELF: case K_PRE_SELF: { r = o->k == K_APP_SELF ? F(append)(self, self) : F(prepend)(self, self);        /* the object is its own argument */
